@@ -134,5 +134,4 @@ theorem findSequence_total (sg : Suggest) (hs : Sound sg) (htot : Total sg) (T :
       rw [hr]; rfl
     exact ⟨_, hfs, findSequence_ok sg hs (fuel + 1) T _ hT hfs⟩
 
-#print axioms findSequence_total
 end P
